@@ -61,10 +61,88 @@ enum Case {
         sent: Vec<String>,
     },
     /// a whole live batch (only its uniqueness line carries this case)
-    Batch { n: usize, seed: u64 },
+    /// `big`: how many of the n requests one client puts on a single
+    /// keep-alive connection (0: spread evenly)
+    Batch {
+        n: usize,
+        seed: u64,
+        #[serde(default)]
+        big: usize,
+    },
+    /// large-scope slice: dimension `dim` pushed to size/count `n` (variant `v`);
+    /// the error is rebuilt deterministically from these three numbers
+    Large { dim: String, n: usize, v: u8 },
 }
 
 // ---------------------------------------------------------- Gallina helpers
+
+/// A Gallina term of type str denoting exactly `b`.  Long periodic stretches
+/// are written `srep n unit` (lossless).  Strings above 200 000 bytes (1 MiB
+/// cases of the thorough tier; Coq's evaluator would overflow its stack on the
+/// full list) are replaced by a token: first and last 16 bytes, the length and
+/// a 64-bit FNV-1a hash, plus the first illegal header byte if there is one.
+/// Equal strings get equal tokens and unequal ones different tokens (up to a
+/// hash collision), and a token is a legal header value iff the string is, so
+/// every comparison and legality test the judge makes has the same outcome.
+fn gz(b: &[u8]) -> String {
+    use dsverif::util::g_bytes as lit;
+    if b.len() > 200_000 {
+        let mut h: u64 = 0xcbf29ce484222325;
+        for &x in b {
+            h ^= x as u64;
+            h = h.wrapping_mul(0x100000001b3);
+        }
+        let mut t = b[..16].to_vec();
+        t.extend_from_slice(format!("#len={}#fnv={:016x}#", b.len(), h).as_bytes());
+        if let Some(&bad) = b.iter().find(|&&x| !(x >= 32 && x != 127 || x == 9)) {
+            t.push(bad);
+        }
+        t.extend_from_slice(&b[b.len() - 16..]);
+        return lit(&t);
+    }
+    if b.len() < 96 {
+        return lit(b);
+    }
+    let mut parts: Vec<String> = vec![];
+    let (mut i, mut l0) = (0usize, 0usize);
+    while i < b.len() {
+        let mut best = (0usize, 0usize);
+        for p in 1..=64.min(b.len() - i) {
+            let mut k = 1;
+            while i + (k + 1) * p <= b.len() && b[i + k * p..i + (k + 1) * p] == b[i..i + p] {
+                k += 1;
+            }
+            if k >= 2 && k * p >= 64 && k * p > best.0 * best.1 {
+                best = (p, k);
+            }
+        }
+        if best.1 > 0 {
+            if l0 < i {
+                parts.push(lit(&b[l0..i]));
+            }
+            parts.push(format!("srep {} {}", best.1, lit(&b[i..i + best.0])));
+            i += best.0 * best.1;
+            l0 = i;
+        } else {
+            i += 1;
+        }
+    }
+    if l0 < b.len() {
+        parts.push(lit(&b[l0..]));
+    }
+    if parts.len() == 1 && parts[0].starts_with('[') {
+        parts.pop().unwrap()
+    } else {
+        format!("({})", parts.join(" ++ "))
+    }
+}
+// every string of a case goes through gz (these shadow util's printers)
+fn g_bytes(b: &[u8]) -> String {
+    gz(b)
+}
+fn g_str(s: &str) -> String {
+    gz(s.as_bytes())
+}
 
 fn g_ostr(s: &Option<String>) -> String {
     g_opt(s, |x| g_str(x))
@@ -75,13 +153,18 @@ fn g_hmap(m: &[(Vec<u8>, Vec<Vec<u8>>)]) -> String {
 fn g_runs(r: &[(u32, u8)]) -> String {
     g_list(r, |(l, c)| format!("({},{})", l, c))
 }
+/// evidence shows the beginning of long strings and the first 40 headers
+fn cut(s: &str) -> String {
+    if s.len() <= 200 { s.to_string() } else { format!("{}... ({} bytes)", s.chars().take(120).collect::<String>(), s.len()) }
+}
 fn j_hmap(m: &[(Vec<u8>, Vec<Vec<u8>>)]) -> Value {
     Value::Array(
         m.iter()
+            .take(40)
             .map(|(n, vs)| {
                 json!([
                     String::from_utf8_lossy(n),
-                    vs.iter().map(|v| String::from_utf8_lossy(v).to_string()).collect::<Vec<_>>()
+                    vs.iter().take(40).map(|v| cut(&String::from_utf8_lossy(v))).collect::<Vec<_>>()
                 ])
             })
             .collect(),
@@ -349,13 +432,20 @@ fn exec_ctor(
     hdrs: &[(Vec<u8>, Vec<u8>)],
     id: &str,
     group: &'static str,
+    // large-scope cases: the compact descriptor as the case, and its tag
+    over: Option<(Value, String)>,
 ) -> Line {
-    let case = serde_json::to_value(Case::Ctor { k: k.clone(), hdrs: hdrs.to_vec(), id: id.to_string() })
-        .unwrap();
+    let case = match &over {
+        Some((c, _)) => c.clone(),
+        None => serde_json::to_value(Case::Ctor { k: k.clone(), hdrs: hdrs.to_vec(), id: id.to_string() }).unwrap(),
+    };
     let req = requested_status(k);
     let txt = http::StatusCode::from_u16(req).ok().and_then(|s| s.canonical_reason()).unwrap_or("");
     let mut tags = vec![format!("ctor:{}", g_ctor(k).split(' ').next().unwrap().trim_start_matches('('))];
     tags.push(format!("status_class:{}xx", req / 100));
+    if let Some((_, t)) = &over {
+        tags.push(t.clone());
+    }
     let mut flags: Vec<bool> = vec![];
     let (obs_json, obs_coq) = match catch(|| build(k)) {
         Err(_) => {
@@ -409,8 +499,15 @@ fn exec_ctor(
                     let (wf, rid, code, msg) = parse_error_body(&body);
                     let leak = match marker(k) {
                         Some(m) if !m.is_empty() => {
-                            let mb = m.as_bytes();
-                            contains(status.as_str().as_bytes(), mb)
+                            // the marker is the first 40 bytes at most; a long internal
+                            // message continues with the filler FILL
+                            let mb = &m.as_bytes()[..m.len().min(40)];
+                            let fill = m.len() > 48 && {
+                                let f = FILL.repeat(4);
+                                headers.iter().any(|(_, vs)| vs.iter().any(|v| contains(v, f.as_bytes())))
+                                    || contains(&body, f.as_bytes())
+                            };
+                            fill || contains(status.as_str().as_bytes(), mb)
                                 || contains(status.canonical_reason().unwrap_or("").as_bytes(), mb)
                                 || headers.iter().any(|(n, vs)| contains(n, mb) || vs.iter().any(|v| contains(v, mb)))
                                 || contains(&body, mb)
@@ -422,9 +519,10 @@ fn exec_ctor(
                         tags.push("error_code:some".into());
                     }
                     (
-                        json!({"error":{"status":es,"code":ecode,"external":eext,"headers":eh.as_ref().map(|h| j_hmap(h))},
-                               "status":status.as_u16(),"headers":j_hmap(&headers),
-                               "body":{"wellformed":wf,"request_id":rid,"error_code":code,"message":msg},
+                        json!({"error":{"status":es,"code":ecode.as_ref().map(|s| cut(s)),"external":cut(&eext),
+                                        "headers":eh.as_ref().map(|h| j_hmap(h))},
+                               "status":status.as_u16(),"headers":j_hmap(&headers),"body_len":body.len(),
+                               "body":{"wellformed":wf,"request_id":cut(&rid),"error_code":code.as_ref().map(|s| cut(s)),"message":cut(&msg)},
                                "leak":leak}),
                         format!(
                             "(OResp {} {} {} {} {} {} {} (OBody {} {} {} {}) {})",
@@ -763,8 +861,12 @@ fn live_line(
     }
 }
 
-fn pick_class(rng: &mut Rng) -> (u8, u16, Vec<String>) {
-    let cls = rng.below(11) as u8;
+fn pick_class(rng: &mut Rng, versioned_too: bool) -> (u8, u16, Vec<String>) {
+    let mut cls = rng.below(11) as u8;
+    if cls == 9 && !versioned_too {
+        // this client keeps to one connection (one server)
+        cls = 7;
+    }
     let status = match cls {
         1 => *rng.pick(&[200u16, 201, 204, 302]),
         2 | 3 => *rng.pick(&[400u16, 404, 409, 418, 444, 499, 500, 503, 555, 599]),
@@ -781,12 +883,18 @@ fn pick_class(rng: &mut Rng) -> (u8, u16, Vec<String>) {
     (cls, status, own)
 }
 
-fn run_batch(rt: &tokio::runtime::Runtime, n: usize, seed: u64, out: &mut dyn Write) {
+fn run_batch(rt: &tokio::runtime::Runtime, n: usize, seed: u64, big: usize, out: &mut dyn Write) {
     let sv = start_servers(rt);
     let threads = 4usize;
-    let per = (n + threads - 1) / threads;
+    // client 0 puts `big` requests on one keep-alive connection; the others
+    // share the rest over two connections each
+    let big = big.min(n);
+    let rest = if big > 0 { (n - big + threads - 2) / (threads - 1) } else { (n + threads - 1) / threads };
     let mut handles = vec![];
     for t in 0..threads {
+        let per = if big > 0 && t == 0 { big } else { rest };
+        let base = if big > 0 && t > 0 { big + (t - 1) * rest } else { t * per };
+        let single = big > 0 && t == 0;
         let (plain, versioned) = (sv.plain, sv.versioned);
         handles.push(std::thread::spawn(move || {
             let mut rng = Rng::new(seed.wrapping_mul(1000).wrapping_add(t as u64));
@@ -795,8 +903,10 @@ fn run_batch(rt: &tokio::runtime::Runtime, n: usize, seed: u64, out: &mut dyn Wr
             let mut res = vec![];
             // the id the server handed this client last
             let mut last_id: Option<String> = None;
+            // requests answered on the current plain connection, and the most seen
+            let (mut on_conn, mut max_on_conn) = (0usize, 0usize);
             for j in 0..per {
-                let (cls, status, own) = pick_class(&mut rng);
+                let (cls, status, own) = pick_class(&mut rng, !single);
                 let (sent_tag, sent) = pick_sent(&mut rng, &last_id);
                 let (ver, req, expect) = live_request(cls, status, &own, &sent);
                 let attempt = |c: &mut Option<live::Conn>, addr| -> Result<LiveObs, String> {
@@ -813,19 +923,28 @@ fn run_batch(rt: &tokio::runtime::Runtime, n: usize, seed: u64, out: &mut dyn Wr
                 if o.is_err() {
                     // the server may have closed an idle connection: once more on a fresh one
                     *slot = None;
+                    if !ver {
+                        on_conn = 0;
+                    }
                     o = attempt(slot, addr);
                 }
                 if o.is_err() {
                     *slot = None;
+                    if !ver {
+                        on_conn = 0;
+                    }
+                } else if !ver {
+                    on_conn += 1;
+                    max_on_conn = max_on_conn.max(on_conn);
                 }
                 if let Ok(ob) = &o {
                     if let Some(l) = ob.xrid.last() {
                         last_id = Some(l.clone());
                     }
                 }
-                res.push(((t * per + j) as u64, cls, status, own, sent, sent_tag, expect, o));
+                res.push(((base + j) as u64, cls, status, own, sent, sent_tag, expect, o, if single { on_conn } else { 0 }));
             }
-            res
+            (res, if single { max_on_conn } else { 0 })
         }));
     }
     let mut ids: Vec<u128> = vec![];
@@ -833,8 +952,11 @@ fn run_batch(rt: &tokio::runtime::Runtime, n: usize, seed: u64, out: &mut dyn Wr
     // a value the server handed out earlier is already among `ids`
     let mut supplied: Vec<u128> = vec![];
     let mut total = 0u64;
+    let mut max_on_one = 0usize;
     for h in handles {
-        for (i, cls, status, own, sent, sent_tag, expect, o) in h.join().expect("client thread") {
+        let (res, m) = h.join().expect("client thread");
+        max_on_one = max_on_one.max(m);
+        for (i, cls, status, own, sent, sent_tag, expect, o, pos) in res {
             if sent_tag != "handed-out-before" {
                 for v in &sent {
                     if let Ok(u) = uuid::Uuid::parse_str(v) {
@@ -850,7 +972,12 @@ fn run_batch(rt: &tokio::runtime::Runtime, n: usize, seed: u64, out: &mut dyn Wr
                 }
             }
             total += 1;
-            emit(out, &live_line(cls, i, status, &own, &sent, sent_tag, expect, o));
+            let mut l = live_line(cls, i, status, &own, &sent, sent_tag, expect, o);
+            if pos > 0 {
+                // position on the one long-lived connection, by power-of-two bucket
+                l.tags.push(format!("large:requests-on-connection:<{}", (pos + 1).next_power_of_two()));
+            }
+            emit(out, &l);
         }
     }
     ids.sort();
@@ -861,24 +988,47 @@ fn run_batch(rt: &tokio::runtime::Runtime, n: usize, seed: u64, out: &mut dyn Wr
         d.dedup();
         d.len()
     };
-    emit(
-        out,
-        &Line {
-            group: "unique",
-            case: serde_json::to_value(Case::Batch { n, seed }).unwrap(),
-            obs: json!({"requests": total, "ids": ids.len(), "distinct": distinct,
-                        "client_supplied_uuids": supplied.len(),
-                        "adopted_from_client": supplied.iter().filter(|u| ids.binary_search(u).is_ok()).count()}),
-            coq: format!(
-                "(CUnique {} {} {})",
-                total,
-                g_list(&ids, |x| g_n(*x)),
-                g_list(&supplied, |x| g_n(*x))
-            ),
-            tags: vec!["unique-batch".into()],
-            nontrivial: true,
-        },
-    );
+    // The sorted ids go to Coq in chunks of at most 8192 (Coq's front end
+    // overflows its stack on a list literal of 65537 elements).  Consecutive
+    // chunks share one id, so "strictly increasing" within every chunk is
+    // strictly increasing over the whole batch; that every response carries a
+    // UUID-shaped id at all is judged per request (CLive).
+    const CHUNK: usize = 8192;
+    let adopted = supplied.iter().filter(|u| ids.binary_search(u).is_ok()).count();
+    let nchunks = if ids.len() <= CHUNK { 1 } else { (ids.len() - 1 + CHUNK - 2) / (CHUNK - 1) };
+    for c in 0..nchunks {
+        let lo = c * (CHUNK - 1);
+        let hi = if nchunks == 1 { ids.len() } else { (lo + CHUNK).min(ids.len()) };
+        let part = &ids[lo..hi];
+        let sup: Vec<u128> = match (part.first(), part.last()) {
+            (Some(a), Some(b)) => supplied.iter().cloned().filter(|u| a <= u && u <= b).collect(),
+            _ => vec![],
+        };
+        emit(
+            out,
+            &Line {
+                group: "unique",
+                case: serde_json::to_value(Case::Batch { n, seed, big }).unwrap(),
+                obs: json!({"requests": total, "ids": ids.len(), "distinct": distinct,
+                            "most_requests_on_one_connection": max_on_one,
+                            "chunk": c, "chunks": nchunks, "chunk_ids": part.len(),
+                            "client_supplied_uuids": supplied.len(), "adopted_from_client": adopted}),
+                coq: format!(
+                    "(CUnique {} {} {})",
+                    // a single chunk must also account for every request
+                    if nchunks == 1 { total as usize } else { part.len() },
+                    g_list(part, |x| g_n(*x)),
+                    g_list(&sup, |x| g_n(*x))
+                ),
+                tags: vec![
+                    "unique-batch".into(),
+                    format!("large:batch-ids:{}", total),
+                    format!("large:requests-on-one-connection:{}", max_on_one),
+                ],
+                nontrivial: true,
+            },
+        );
+    }
 }
 
 fn run_live1(rt: &tokio::runtime::Runtime, cls: u8, i: u64, status: u16, own: &[String], sent: &[String]) -> Line {
@@ -1015,6 +1165,147 @@ fn gen_ctor_cases(opts: &Opts) -> Vec<Case> {
     cases
 }
 
+// ------------------------------------------------------------ large scope
+
+const SIZES: &[usize] = &[
+    15, 16, 17, 31, 32, 33, 63, 64, 65, 127, 128, 129, 255, 256, 257, 1023, 1024, 1025, 4095, 4096, 4097, 8191,
+    8192, 8193, 65535, 65536, 65537,
+];
+const MIB: &[usize] = &[1048575, 1048576, 1048577];
+/// filler of long internal messages (searched for in the response, four in a row)
+const FILL: &str = "Zq";
+
+/// exactly `n` bytes of text; flavour 0 ASCII, 1/2/3 two-/three-/four-byte
+/// characters after n mod width ASCII bytes (with n = 257 or 4097 a character
+/// straddles the 255|256 resp. 4095|4096 byte boundary)
+fn text(n: usize, flavour: u8) -> String {
+    let (w, ch) = match flavour % 4 {
+        0 => (1, 'e'),
+        1 => (2, '\u{e9}'),
+        2 => (3, '\u{65e5}'),
+        _ => (4, '\u{1F600}'),
+    };
+    let mut s = "e".repeat(n % w);
+    for _ in 0..n / w {
+        s.push(ch);
+    }
+    s
+}
+
+/// an internal message of exactly n bytes (n >= 40): a marker, then filler
+fn internal(n: usize, dim: &str, v: u8) -> String {
+    let mut s = format!("INTERNAL-DETAIL-large-{}-{}-", dim, v);
+    while s.len() < 40 {
+        s.push('#');
+    }
+    s.truncate(40.min(n.max(1)));
+    while s.len() + 2 <= n {
+        s.push_str(FILL);
+    }
+    while s.len() < n {
+        s.push('Z');
+    }
+    s
+}
+
+fn hname(i: usize, tag: &str) -> String {
+    let rev: String = format!("{:05}", i).chars().rev().collect();
+    format!("{}-{}", rev, tag)
+}
+
+fn exec_large(rt: &tokio::runtime::Runtime, dim: &str, n: usize, v: u8) -> Line {
+    let id = "0a1b2c3d-4e5f-4a6b-8c7d-9e0f1a2b3c4d".to_string();
+    let status = 400 + ((v as usize * 7 + n) % 200) as u16;
+    let fl = v % 4;
+    let small_int = internal(40, dim, v);
+    let lit = |code: Option<String>, ext: String, int: String| CtorSpec::Literal {
+        status,
+        code,
+        ext,
+        int,
+        with_map: v % 2 == 0,
+    };
+    let (k, hdrs, id): (CtorSpec, Vec<(Vec<u8>, Vec<u8>)>, String) = match dim {
+        "external-len" => (lit(Some("C".into()), text(n, fl), small_int), vec![], id),
+        "error-code-len" => (lit(Some(text(n, fl)), "external".into(), small_int), vec![], id),
+        "internal-len" => {
+            let int = internal(n.max(40), dim, v);
+            let k = match v % 4 {
+                0 => lit(None, "external".into(), int),
+                1 => CtorSpec::Internal { int },
+                2 => CtorSpec::Unavail { code: Some("U".into()), int },
+                _ => CtorSpec::NotFound { code: None, int },
+            };
+            (k, vec![], id)
+        }
+        "message-len" => {
+            // the constructors with one message for both roles
+            let k = if v % 2 == 0 {
+                CtorSpec::ClientError { code: Some("M".into()), status: 400 + status % 100, msg: text(n, fl) }
+            } else {
+                CtorSpec::BadRequest { code: None, msg: text(n, fl) }
+            };
+            (k, vec![], id)
+        }
+        "all-len" => (lit(Some(text(n, fl)), text(n, fl + 1), internal(n.max(40), dim, v)), vec![], id),
+        "attached-headers" => {
+            let h = (0..n).map(|i| (hname(i, if i % 2 == 0 { "xh" } else { "XH" }).into_bytes(), format!("h{}", i).into_bytes())).collect();
+            (lit(Some("H".into()), "external".into(), small_int), h, id)
+        }
+        "attached-values" => {
+            let h = (0..n).map(|i| (if i % 2 == 0 { b"Retry-After".to_vec() } else { b"retry-after".to_vec() }, format!("{}", i).into_bytes())).collect();
+            (lit(Some("H".into()), "external".into(), small_int), h, id)
+        }
+        "attached-value-len" => {
+            let h = vec![(b"x-long".to_vec(), text(n, fl).into_bytes()), (b"content-type".to_vec(), text(n, 0).into_bytes())];
+            (lit(None, "external".into(), small_int), h, id)
+        }
+        "id-len" => (lit(None, "external".into(), small_int), vec![], text(n, fl)),
+        _ => panic!("unknown large dimension {}", dim),
+    };
+    let case = serde_json::to_value(Case::Large { dim: dim.to_string(), n, v }).unwrap();
+    exec_ctor(rt, &k, &hdrs, &id, "large", Some((case, format!("large:{}:{}", dim, n))))
+}
+
+fn gen_large(opts: &Opts) -> Vec<Case> {
+    let mut out = vec![];
+    let t = opts.thorough;
+    let mut push = |dim: &str, n: usize, v: usize| out.push(Case::Large { dim: dim.to_string(), n, v: (v % 250) as u8 });
+    let lens: Vec<usize> = SIZES.iter().cloned().chain(if t { MIB.to_vec() } else { vec![] }).collect();
+    for (i, &n) in lens.iter().enumerate() {
+        push("external-len", n, i);
+        push("internal-len", n, i);
+        push("error-code-len", n, i);
+        push("message-len", n, i);
+        push("attached-value-len", n, i);
+        if n <= 65537 {
+            push("id-len", n, i);
+        }
+    }
+    // multi-byte text straddling 255|256, 4095|4096, 65535|65536, each width
+    for fl in 1..4usize {
+        for &n in &[255usize, 256, 257, 258, 4095, 4096, 4097, 4098, 65537] {
+            push("external-len", n, fl);
+            push("error-code-len", n, fl);
+        }
+        for &n in &[257usize, 4097] {
+            push("all-len", n, fl);
+            push("message-len", n, fl);
+        }
+    }
+    // counts: the model's header map is an association list (quadratic Coq time)
+    let call = if t { 1025 } else { 257 };
+    for (i, &n) in SIZES.iter().filter(|&&n| n <= call).enumerate() {
+        push("attached-headers", n, i);
+    }
+    push("attached-headers", if t { 4096 } else { 1024 }, 0);
+    let vmax = if t { 8193 } else { 1025 };
+    for (i, &n) in SIZES.iter().filter(|&&n| n <= vmax).enumerate() {
+        push("attached-values", n, i);
+    }
+    out
+}
+
 fn main() {
     dsverif::cli::main(|opts, replay, out| {
         let rt = live::rt();
@@ -1024,11 +1315,12 @@ fn main() {
                     let c: Case = serde_json::from_value(v).expect("c13 case");
                     match c {
                         Case::Status { lo, hi } => emit(out, &exec_status(lo, hi)),
-                        Case::Ctor { k, hdrs, id } => emit(out, &exec_ctor(&rt, &k, &hdrs, &id, "ctor")),
+                        Case::Ctor { k, hdrs, id } => emit(out, &exec_ctor(&rt, &k, &hdrs, &id, "ctor", None)),
                         Case::Live1 { cls, i, status, own, sent } => {
                             emit(out, &run_live1(&rt, cls, i, status, &own, &sent))
                         }
-                        Case::Batch { n, seed } => run_batch(&rt, n, seed, out),
+                        Case::Batch { n, seed, big } => run_batch(&rt, n, seed, big, out),
+                        Case::Large { dim, n, v } => emit(out, &exec_large(&rt, &dim, n, v)),
                     }
                 }
             }
@@ -1039,10 +1331,33 @@ fn main() {
                 }
                 for c in gen_ctor_cases(opts) {
                     if let Case::Ctor { k, hdrs, id } = c {
-                        emit(out, &exec_ctor(&rt, &k, &hdrs, &id, "ctor"));
+                        emit(out, &exec_ctor(&rt, &k, &hdrs, &id, "ctor", None));
                     }
                 }
-                run_batch(&rt, if opts.thorough { 24000 } else { 3000 }, opts.seed, out);
+                // the large-scope error cases, spread through the rest of the run's
+                // lines (the driver evaluates contiguous blocks in parallel)
+                let mut large = gen_large(opts);
+                Rng::new(opts.seed ^ 0x1a46e).shuffle(&mut large);
+                let (n, big) = if opts.thorough { (67040, 65540) } else { (3000, 1100) };
+                let mut buf: Vec<u8> = vec![];
+                run_batch(&rt, n, opts.seed, big, &mut buf);
+                let lines: Vec<&[u8]> = buf.split(|b| *b == b'\n').filter(|l| !l.is_empty()).collect();
+                let step = (lines.len() / (large.len() + 1)).max(1);
+                let mut li = large.into_iter();
+                for (i, l) in lines.iter().enumerate() {
+                    if i % step == step - 1 {
+                        if let Some(Case::Large { dim, n, v }) = li.next() {
+                            emit(out, &exec_large(&rt, &dim, n, v));
+                        }
+                    }
+                    out.write_all(l).unwrap();
+                    out.write_all(b"\n").unwrap();
+                }
+                for c in li {
+                    if let Case::Large { dim, n, v } = c {
+                        emit(out, &exec_large(&rt, &dim, n, v));
+                    }
+                }
             }
         }
     })
